@@ -156,6 +156,10 @@ func (r *reconcile) updateGlobalCuntFlowControls() {
 		if localConfig.Strategy != proxyv1alpha1.GlobalCountLimit {
 			continue
 		}
+		// a schema without global limits is enforced locally, as for globalAllocate
+		if !EnableGlobalFlowControl(localConfig) {
+			continue
+		}
 
 		itemConfig := proxyv1alpha1.RateLimitItemConfiguration{
 			Name:     name,
